@@ -920,6 +920,7 @@ class Ownership:
               ["apply", 0, 1]]),
             ("merge-destruct-einval-source-not-consumed",
              [P("0", '<top %s>t</top>' % A, 0, _P_ONLY), P("1", '<top %s>u</top>' % A, 1, _P_ONLY), ["merge", 0, 1, _MERGE_DESTRUCT, "s"]]),
+            ("parse-multi-error-opaq-child-assert", [P("0", '<l %s><zz/><k1>b</k1><v>v1</v></l>' % A, 0, 393216, _V_MULTI)]),
             ("merge-destruct-cb-fail-frees-target",
              [P("0", '<top %s>t</top>' % A, 0, _P_ONLY), P("0", '<tul %s>n</tul><tul %s>m</tul>' % (A, A), 1, _P_ONLY),
               ["merge", 0, 1, _MERGE_DESTRUCT, "m", 1, "~"]]),
@@ -1138,6 +1139,11 @@ class Ownership:
             cmd = m.group(2) if m else None
             for rx, c, tag in self.CRASHES:
                 if (c is None or c == cmd or (cmd or "").startswith(c)) and _re.search(rx, err):
+                    w_ = self.cmd_of(line, int(m.group(1))) if m else []
+                    if tag == "xml-anyxml-mixed-content-assert" and len(w_) > 4 and w_[3].isdigit() and w_[4].isdigit() and \
+                            (int(w_[3]) & 0x40000) and (int(w_[4]) & _V_MULTI):
+                        # same assertion, other cause: an opaque node with an invalid child in multi-error mode
+                        tag = "parse-multi-error-opaq-child-assert"
                     return (tag, "%s in command %s (%s)" % (out, m.group(1) if m else "?", cmd))
             kind = "hang" if out in ("CRASH(-14)", "TIMEOUT") else "crash"
             return ("%s:%s" % (kind, cmd) if cmd else kind, "%s %s" % (out, ("in command %s (%s)" % (m.group(1), cmd)) if m else ""))
